@@ -40,7 +40,7 @@ class Unsupported(Abort):
 # ----------------------------------------------------------------------------
 # path manager
 
-CONFIG = {'K': 1, 'query_timeout_ms': 10000, 'max_decisions': 4000}
+CONFIG = {'K': 1, 'query_timeout_ms': 10000, 'max_decisions': 4000, 'cutpoints': False}
 BUDGET = CONFIG  # old name
 
 STATS = {'paths': 0, 'checks': 0, 'sat': 0, 'unsat': 0, 'unknown': 0, 'solver_s': 0.0, 'decisions': 0}
@@ -65,6 +65,10 @@ class PathState:
         self.hard = []                # constraints left out of intermediate feasibility checks
         self.notes = {}
         self.constraints = []
+        self.cutrec = []              # (fresh var, defining term) of every cut point, in execution order
+        self.cutmemo = {}             # simplified defining term id -> (var, term)
+        self.named = {}               # defining term id -> (var, term) for named intermediate characters
+        self.var_constraints = {}     # var id -> constraint over that single variable asserted on this path
 
     def add(self, c):
         self.solver.add(c)
@@ -88,6 +92,64 @@ class PathState:
         if r == z3.unknown:
             self.unknown += 1
         return r
+
+    def check_valid(self, phi, depths=(1, 3, 7)):
+        """is phi implied by the path condition?  returns ('unsat', None) [= valid], ('sat', model) or ('unknown', None).
+        Tries cone-of-influence slices of increasing depth first: a slice of the path condition that already refutes
+        not(phi) proves validity (dropping constraints only weakens the antecedent); `sat` is only ever reported from the
+        full path condition."""
+        if isinstance(phi, bool):
+            if phi:
+                return 'unsat', None
+            neg = z3.BoolVal(True)
+        else:
+            neg = z3.Not(phi)
+        cons = self.constraints
+        if len(cons) > 12:
+            cvars = [term_vars(c) for c in cons]
+            target = set(term_vars(neg))
+            if isinstance(phi, bool):
+                # "this path is infeasible": start the slices from the most recent decisions
+                for c in [c for c in cons if not z3.is_true(c)][-3:]:
+                    target |= term_vars(c)
+            for d in depths:
+                reach = set(target)
+                chosen = set()
+                for _ in range(d):
+                    grew = False
+                    for i, vs in enumerate(cvars):
+                        if i not in chosen and vs & reach:
+                            chosen.add(i)
+                            if not vs <= reach:
+                                reach |= vs
+                                grew = True
+                    if not grew:
+                        break
+                # one more sweep: constraints entirely inside the reached variables (ranges)
+                for i, vs in enumerate(cvars):
+                    if vs and vs <= reach:
+                        chosen.add(i)
+                if len(chosen) >= len(cons) - 2:
+                    break
+                s = z3.Solver()
+                s.set('timeout', min(CONFIG['query_timeout_ms'], 5000))
+                s.add([cons[i] for i in sorted(chosen)])
+                s.add(neg)
+                t0 = time.time()
+                r = s.check()
+                STATS['checks'] += 1
+                STATS['solver_s'] += time.time() - t0
+                STATS['sliced'] = STATS.get('sliced', 0) + 1
+                if r == z3.unsat:
+                    STATS['unsat'] += 1
+                    STATS['sliced_unsat'] = STATS.get('sliced_unsat', 0) + 1
+                    return 'unsat', None
+        r = self.check(neg, full=True)
+        if r == z3.unsat:
+            return 'unsat', None
+        if r == z3.sat:
+            return 'sat', self.solver.model()
+        return 'unknown', None
 
     def witness_model(self):
         """model of the full path condition (hard constraints included) or None"""
@@ -221,6 +283,44 @@ def assume(cond):
 _fresh = [0]
 
 
+def cut(term, lo, hi, hard=False):
+    """cut point: name a small-range intermediate by a fresh variable (DESIGN.md 2.5); the definition is recorded so
+    that paired runs can be aligned and injectivity lemmas proven per step (symx/pairs.py)"""
+    t = simp(term)
+    if z3.is_int_value(t):
+        return t
+    st = CUR
+    prev = st.cutmemo.get(t.get_id())
+    if prev is not None:
+        st.cutrec.append((prev[0], term))     # same definition as an earlier cut point on this path: share the variable
+        return prev[0]
+    r = fresh_int('k')
+    st.cutmemo[t.get_id()] = (r, t)
+    rng = z3.And(r >= lo, r <= hi)
+    st.add(rng)
+    if hard or CONFIG.get('cut_hard'):
+        st.add_hard(r == term)
+    else:
+        st.add(r == term)
+    st.cutrec.append((r, term))
+    st.var_constraints[r.get_id()] = rng
+    return r
+
+
+def named(term, prefix):
+    """fresh variable defined as `term`; the same definition on the same path yields the same variable (so that a second
+    run over the same characters shares them with the first)"""
+    st = CUR
+    k = term.get_id()
+    e = st.named.get(k)
+    if e is not None:
+        return e[0]
+    r = fresh_int(prefix)
+    st.add(r == term)
+    st.named[k] = (r, term)
+    return r
+
+
 def fresh_int(name='v'):
     _fresh[0] += 1
     return z3.Int('%s%d' % (name, _fresh[0]))
@@ -274,6 +374,8 @@ class SInt:
     # python floor semantics: for positive constant divisor z3 div/mod (euclidean) coincide with floor
     def __mod__(s, o):
         if isinstance(o, int) and o > 0:
+            if CONFIG.get('cutpoints') and o <= 4096:
+                return SInt(cut(s.z % o, 0, o - 1))
             return SInt(s.z % o)
         if isinstance(o, SInt):
             if not fork(o.z > 0):
@@ -363,6 +465,38 @@ def memo(key, keep, fn):
     return e[1]
 
 
+_TVARS = {}
+
+
+def term_vars(t):
+    """frozenset of ids of the uninterpreted constants of t (memoised per term id; terms are kept alive by the memo)"""
+    k = t.get_id()
+    e = _TVARS.get(k)
+    if e is not None:
+        return e[1]
+    acc = set()
+    seen = set()
+    stack = [t]
+    while stack:
+        x = stack.pop()
+        i = x.get_id()
+        if i in seen:
+            continue
+        seen.add(i)
+        if z3.is_const(x):
+            if x.decl().kind() == z3.Z3_OP_UNINTERPRETED:
+                acc.add(i)
+            continue
+        sub = _TVARS.get(i)
+        if sub is not None:
+            acc |= sub[1]
+            continue
+        stack.extend(x.children())
+    fs = frozenset(acc)
+    _TVARS[k] = (t, fs)
+    return fs
+
+
 def simp(cond):
     return memo(('simp', cond.get_id()), cond, lambda: z3.simplify(cond))
 
@@ -401,6 +535,8 @@ class SStr:
             return x
         if isinstance(x, str):
             return SStr([ord(c) for c in x])
+        if isinstance(x, LazyDec):
+            return SStr.of(x.force())
         raise Unsupported('SStr.of %r' % type(x))
 
     def is_concrete(self):
@@ -557,8 +693,7 @@ class SStr:
                 else:
                     raise Infeasible('infeasible')
                 continue
-            r = fresh_int('u')
-            CUR.add(r == case_term(which, c))
+            r = named(case_term(which, c), 'u')
             derived_char(r, c)
             out.append(r)
         return mk(out)
@@ -882,10 +1017,7 @@ class LazyDec:
                             raise ValueError('invalid literal for int()')
                         acc = acc * 10 + e
             if m is not None:
-                r = fresh_int('r')
-                CUR.add(z3.And(r >= 0, r < m))
-                CUR.add_hard(r == acc % m)      # cut point: definition left out of intermediate feasibility checks
-                acc = r
+                acc = cut(acc % m, 0, m - 1, hard=True)   # definition left out of intermediate feasibility checks
         return acc
 
     def force(self):
@@ -915,8 +1047,12 @@ def render_int(v):
 
 
 def m_str(x=''):
-    if isinstance(x, SStr):
+    if isinstance(x, (SStr, LazyDec)):
         return x
+    if isinstance(x, LazyBigInt):
+        return m_str(x.force())
+    if isinstance(x, (SDate, LazySel, SBV)):
+        raise Unsupported('str() of %s' % type(x).__name__)
     if isinstance(x, SInt):
         return LazyDec([x])
     if isinstance(x, SBool):
@@ -1202,9 +1338,7 @@ def getitem(a, i):
                     val = z3.IntVal(ord(vals[-1][p]))
                     for k, v in reversed(list(zip(keys, vals))[:-1]):
                         val = z3.If(i._eqz(k), ord(v[p]), val)
-                    r = fresh_int('dv')
-                    CUR.add(r == val)
-                    out.append(r)
+                    out.append(named(val, 'dv'))
                 return mk(out)
             for k in keys[:-1]:
                 if fork(i._eqz(k)):
@@ -1237,10 +1371,16 @@ def getitem(a, i):
                 raise IndexError('index out of range')
             j = z3.If(i.z < 0, i.z + m, i.z)
             if all(_is_plain_int(e) for r in rows for e in r):
-                return SInt(_sel(a.idx, [_sel(j, list(r)) for r in rows]))
+                t = _sel(a.idx, [_sel(j, list(r)) for r in rows])
+                if CONFIG.get('cutpoints'):
+                    flat = [e for r in rows for e in r]
+                    return SInt(cut(t, min(flat), max(flat)))
+                return SInt(t)
             raise Unsupported('LazySel of non-int')
         col = [r[i] for r in rows]
         if all(_is_plain_int(e) for e in col):
+            if CONFIG.get('cutpoints'):
+                return SInt(cut(_sel(a.idx, col), min(col), max(col)))
             return SInt(_sel(a.idx, col))
         if all(isinstance(e, (tuple, list)) for e in col):
             return LazySel(col, a.idx) if False else _lazysel3(col, a.idx)
@@ -1252,17 +1392,15 @@ def getitem(a, i):
         idx = z3.If(i.z < 0, i.z + n, i.z)
         if isinstance(a, (str, SStr)):
             chars = SStr.of(a).chars
-            r = fresh_int('c')
-            CUR.add(r == _sel(idx, chars))
-            return SStr([r])
+            return SStr([named(_sel(idx, chars), 'c')])
         if all(_is_plain_int(e) or isinstance(e, SInt) for e in a):
+            if CONFIG.get('cutpoints') and all(_is_plain_int(e) for e in a):
+                return SInt(cut(_sel(idx, list(a)), min(a), max(a)))
             return SInt(_sel(idx, [e.z if isinstance(e, SInt) else e for e in a]))
         if all(isinstance(e, (tuple, list)) and all(_is_plain_int(x) for x in e) for e in a):
             return LazySel(list(a), idx)
         if all(isinstance(e, str) and len(e) == 1 for e in a):
-            r = fresh_int('c')
-            CUR.add(r == _sel(idx, [ord(e) for e in a]))
-            return SStr([r])
+            return SStr([named(_sel(idx, [ord(e) for e in a]), 'c')])
         # fork over index values
         for k in range(n - 1):
             if fork(idx == k):
@@ -1303,8 +1441,7 @@ def dict_get(d, k, default=None):
                 val = memo(('dg', id(d), c.get_id(), dflt.get_id(), asc), (d, c, dflt), build)
             if val is c:
                 return k
-            r = fresh_int('m')
-            CUR.add(r == val)
+            r = named(val, 'm')
             derived_char(r, c)
             return SStr([r])
         for kk in d:
@@ -1728,6 +1865,16 @@ class LazySel:
     def __iter__(self):
         for j in range(len(self)):
             yield getitem(self, j)
+
+    def index(self, v):
+        if not _is_plain_int(v):
+            raise Unsupported('LazySel.index of symbolic')
+        vals = []
+        for r in self.rows:
+            if v not in r:
+                raise Unsupported('LazySel.index: value missing from a row')
+            vals.append(list(r).index(v))
+        return SInt(_sel(self.idx, vals))
 
 
 class RT:
@@ -2569,13 +2716,40 @@ def symstr(n, name='s', lo=0, hi=0x10ffff):
     """fresh symbolic string of length n over code points lo..hi (constraints added to the current path)"""
     chars = [z3.Int('%s_%d' % (name, i)) for i in range(n)]
     for c in chars:
-        CUR.add(z3.And(c >= lo, c <= hi))
+        constrain_var(c, z3.And(c >= lo, c <= hi))
     return SStr(chars), chars
+
+
+def constrain_var(v, cond):
+    """assert a constraint that mentions only variable v and remember it (used as range information by lemma proofs)"""
+    st = CUR
+    st.add(cond)
+    k = v.get_id()
+    st.var_constraints[k] = z3.And(st.var_constraints[k], cond) if k in st.var_constraints else cond
+
+
+def symstr_alpha(n, alphabet, name='s'):
+    """fresh symbolic string of length n over the characters of `alphabet`"""
+    chars = [z3.Int('%s_%d' % (name, i)) for i in range(n)]
+    cps = sorted(set(ord(a) for a in alphabet))
+    for c in chars:
+        constrain_var(c, in_ranges(c, _to_ranges(cps)))
+    return SStr(chars), chars
+
+
+def _to_ranges(cps):
+    out = []
+    for cp in cps:
+        if out and out[-1][1] == cp - 1:
+            out[-1][1] = cp
+        else:
+            out.append([cp, cp])
+    return [tuple(r) for r in out]
 
 
 def symchar_in(name, alphabet):
     c = z3.Int(name)
-    CUR.add(z3.Or([c == ord(a) for a in alphabet]))
+    constrain_var(c, in_ranges(c, _to_ranges(sorted(set(ord(a) for a in alphabet)))))
     return c
 
 
